@@ -118,12 +118,15 @@ def parse_xlsx(path):
 def _sheet_items(cells, merges):
     names, items = [], []
     rows = sorted({r for (r, c) in cells if c == 0 and r > 0})
+    def text(v):
+        # names and labels are texts; a cell that holds a number instead is reported as such (and differs from any name)
+        return v if isinstance(v, str) else f"<number {v!r}>"
     for r in rows:
-        names.append(cells[(r, 0)])
+        names.append(text(cells[(r, 0)]))
     for (r, c), v in sorted(cells.items()):
         if r == 0 or c == 0:
             continue
-        items.append([r, c, merges.get((r, c), c), v])
+        items.append([r, c, merges.get((r, c), c), text(v)])
     return names, items
 
 
